@@ -67,6 +67,23 @@ Succ(n, f) ==
   IF f = Dom(n) THEN [on |-> {}, ok |-> FALSE]
   ELSE LET z == Min(Dom(n) \ f) IN [on |-> {m \in f : m > z} \cup {z}, ok |-> TRUE]
 
+\* f + k as 2^n-bit numbers (k < 2^30), 16 bits at a time so that no TLC integer exceeds 2^31; ok = FALSE
+\* when the sum does not fit (the table then holds the sum modulo 2^(2^n))
+Limb(f, j) == FSE!FoldSet(LAMBDA b, acc : acc + 2^(b - 16 * j), 0, {b \in f : b >= 16 * j /\ b < 16 * j + 16})
+LimbSet(j, v) == {16 * j + c : c \in {c \in 0..15 : (v \div 2^c) % 2 = 1}}
+RECURSIVE AddFrom(_, _, _, _)
+AddFrom(nl, f, j, carry) ==
+  IF carry = 0 THEN [on |-> {x \in f : x >= 16 * j}, ok |-> TRUE]
+  ELSE IF j = nl THEN [on |-> {}, ok |-> FALSE]
+  ELSE LET s == Limb(f, j) + carry
+           rest == AddFrom(nl, f, j + 1, s \div 65536)
+       IN [on |-> LimbSet(j, s % 65536) \cup rest.on, ok |-> rest.ok]
+AddTab(n, f, k) ==
+  IF n >= 4 THEN AddFrom(2^(n - 4), f, 0, k)
+  ELSE LET s == Limb(f, 0) + k IN [on |-> LimbSet(0, s % 2^(2^n)), ok |-> s < 2^(2^n)]
+\* the number of tables from f to the last one, 2^(2^n) - f, as a set of bit positions (bit 2^n for f = 0)
+CountFrom(n, f) == IF f = {} THEN {2^n} ELSE Succ(n, Dom(n) \ f).on
+
 \* Minimum of a non-empty set of functions in the numeric order (radix descent)
 RECURSIVE MinByBit(_, _)
 MinByBit(S, b) ==
@@ -139,6 +156,15 @@ PermList(n) ==      \* all n! permutations (as image sequences over 0..n-1), as 
        IN [k \in 1..(Len(prev) * n) |-> Ins(prev[((k - 1) \div n) + 1], ((k - 1) % n) + 1)]
 PermMap(n, perm) == [y \in Dom(n) |-> XofR(y, perm, {}, 0)]
 PermMapsSlow(n) == LET pl == PermList(n) IN [k \in 1..Len(pl) |-> PermMap(n, pl[k])]
+\* Neighbourhood of f in its orbit: one generator step (an exchange of two inputs; a complemented input or
+\* output).  The orbit minimum is no larger than any of its neighbours, nor than theirs: a necessary condition
+\* that stays cheap at sizes where the orbit itself cannot be enumerated.
+Neighbours(kind, n, f) ==
+  LET sw == IF kind \in {"p", "npn"} THEN {Swap(n, f, i, j) : i \in 0..(n - 1), j \in 0..(n - 1)} ELSE {}
+      fl == IF kind \in {"n", "npn"} THEN {Flip(n, f, i) : i \in 0..(n - 1)} \cup {Dom(n) \ f} ELSE {}
+  IN sw \cup fl
+Neighbours2(kind, n, f) == LET N1 == Neighbours(kind, n, f) IN N1 \cup UNION {Neighbours(kind, n, g) : g \in N1}
+
 \* the same maps built by coset decomposition S_n = U_j S_{n-1} t_j (t_j exchanges x_j and x_{n-1}),
 \* with every intermediate map forced to a concrete function (f @@ <<>>)
 Concrete(f) == f @@ <<>>
